@@ -14,6 +14,7 @@ import SwcVerif.Model.Mst
 import SwcVerif.Model.Views
 import SwcVerif.Model.Images
 import SwcVerif.Model.Features
+import SwcVerif.Model.AlgoRun
 
 def dispatch (op : String) (args : List String) : String :=
   match op with
@@ -39,6 +40,7 @@ def dispatch (op : String) (args : List String) : String :=
   | "views" => Views.handle args
   | "imgaxes" | "imggrid" | "imgedge" => Img.handle op args
   | "feat" => Feat.handle args
+  | "gdsu" => AlgoRun.handle op args
   | "swcline" => SwcText.handleLine args
   | "swcread" => SwcText.handleRead args
   | "swcwrite" => SwcText.handleWrite args
